@@ -25,7 +25,12 @@ RULE = ("operations: c03.seal = real Encrypted.Serialize (random 256-byte keys, 
         "client parity, random ids); c03.session = ONE transport reading a sequence of 2..12 server packets (the same packet "
         "twice and three times in a row, again later, the same msg_id sealed anew with other content, unencrypted "
         "messages and refused msg_ids in between; fixed shapes and random walks), each packet judged as a c03.route of "
-        "its own; c03.par = 2 / 8 / 32 clients of one process sealing and opening at the same time, "
+        "its own — also with every frame written by the loopback peer in 1..k pieces (cuts inside the 4-byte length prefix, between "
+        "prefix and packet, inside key id / msg_key / ciphertext, before the last byte, one byte at a time; 4 KB bodies in three "
+        "pieces, 64 KB bodies in two and in one), a short pause after each piece, several packets per connection, and with 4-byte "
+        "transport error-code frames (-404, -429, -444, other values, int32 extremes) before, between and after the packets in "
+        "every order (fixed shapes and random walks mixing all of it): every conformant packet must come out of ReadMsg with its "
+        "content; c03.par = 2 / 8 / 32 clients of one process sealing and opening at the same time, "
         "every packet judged by the specification's server (a fixed line when no call disturbs another). distinct = "
         "distinct operation lines; every line is also run through the Lean model (executable SHA-1/AES/IGE) and compared")
 
